@@ -593,7 +593,8 @@ func sweepAgain(c *core.Ctx) {
 // An error raised while a file is loaded (import / invite! / a file of `pangaea test`) is delivered every time
 // that file is loaded, and nothing written after the failing load - in the script, or in the test tree - runs.
 type loadCase struct {
-	Mode    string            `json:"mode"` // "load"
+	Jargon  bool              `json:"jargon,omitempty"` // run with PANGAEA_JARGON_FILE=jargon.pangaea
+	Mode    string            `json:"mode"`             // "load"
 	Name    string            `json:"name"`
 	Files   map[string]string `json:"files"`
 	Args    []string          `json:"args"`
@@ -639,6 +640,17 @@ func loadCases() []loadCase {
 		}
 		cs = append(cs, loadCase{Mode: "load", Name: "test-tree-failing-" + strings.ReplaceAll(failing, "/", "-"), Files: tree(failing), Args: []string{"test", "suite"}, WantOut: want, WantErr: "ValueErr: bad"})
 	}
+	// -j: the jargon file is part of the program; a statement of it that raises ends the run like any other statement
+	// (script file, -e, -n and -p one-liners; the failing statement first, in the middle, last)
+	for _, jar := range [][2]string{{"\"j1\".p\nlimit := 1 / 0\n\"j2\".p\n", "j1\n"}, {"limit := nil.zz_nope\n\"j2\".p\n", ""}, {"\"j1\".p\n\"j2\".p\nraise ValueErr.new(\"jargon\")\n", "j1\nj2\n"}, {"\"j1\".p\nhelper := {|| 1 / 0}\nx := [1, helper(), 3]\n", "j1\n"}} {
+		wantErr := map[bool]string{true: "ZeroDivisionErr", false: "NoPropErr"}[strings.Contains(jar[0], "1 / 0")]
+		if strings.Contains(jar[0], "ValueErr") {
+			wantErr = "ValueErr: jargon"
+		}
+		for _, how := range [][]string{{"-j", "main.pangaea"}, {"-j", "-e", "\"script\".p"}, {"-j", "-n", "-e", "\"script\".p"}, {"-j", "-p", "-e", "\\"}} {
+			cs = append(cs, loadCase{Mode: "load", Jargon: true, Name: "jargon-raises/" + strings.Join(how[:len(how)-1], ""), Files: map[string]string{"jargon.pangaea": jar[0], "main.pangaea": "\"script\".p\n"}, Args: how, WantOut: jar[1], WantErr: wantErr})
+		}
+	}
 	return cs
 }
 
@@ -663,6 +675,10 @@ func judgeLoad(c *core.Ctx, t loadCase) {
 	}
 	cmd := exec.Command("timeout", append([]string{"60", cli}, t.Args...)...)
 	cmd.Dir = dir
+	if t.Jargon {
+		cmd.Env = append(os.Environ(), "PANGAEA_JARGON_FILE="+filepath.Join(dir, "jargon.pangaea"))
+		cmd.Stdin = strings.NewReader("line1\nline2\n")
+	}
 	var so, se strings.Builder
 	cmd.Stdout, cmd.Stderr = &so, &se
 	runErr := cmd.Run()
